@@ -151,8 +151,10 @@ class SearchCriteria(metaclass=ABCMeta):
         elif key_name == b'HEADER':
             name, value = key.filter_header
             return HeaderSearchCriteria(name, value, params)
-        elif key_name in (b'BODY', b'TEXT'):
+        elif key_name == b'TEXT':
             return BodySearchCriteria(key.filter_str, params)
+        elif key_name == b'BODY':
+            return BodySearchCriteria(key.filter_str, params, headers=False)
         raise SearchNotAllowed(key)
 
 
@@ -429,10 +431,12 @@ class HeaderSearchCriteria(SearchCriteria):
 class BodySearchCriteria(SearchCriteria):
     """Matches if the message body contains a value."""
 
-    def __init__(self, value: str, params: SearchParams) -> None:
+    def __init__(self, value: str, params: SearchParams, *,
+                 headers: bool = True) -> None:
         super().__init__(params)
         self.value = bytes(value, 'utf-8', 'replace')
+        self.headers = headers
 
     def matches(self, msg_seq: int, msg: MessageInterface,
                 loaded_msg: LoadedMessageInterface) -> bool:
-        return loaded_msg.contains(self.value)
+        return loaded_msg.contains(self.value, headers=self.headers)
